@@ -37,6 +37,7 @@ type Profile struct {
 	UnnamedPct    int    // % of signatures with unnamed parameters
 	GopathPct     int    // % of worlds in GOPATH+vendor layout
 	ModPath       string // module-relative import path prefix of the world (default example.com/w, own go.mod)
+	NoDotBlank    bool   // no dot / blank imports in the source files
 	UniqueAliases bool   // never use one alias for two different paths (known finding F-K, harness F)
 	ShadowPct     int    // % of signatures in which earlier parameters are named like the packages a later parameter type mentions
 	Evolve        bool   // also render a second version of the source (first requested literal interface gains a method)
@@ -68,6 +69,7 @@ type G struct {
 	declFold  map[string]bool
 	methSeq   int
 	inPlace   bool
+	gopath    bool     // GOPATH + vendor layout
 	tparams   []tparam // in scope while drawing a generic interface
 	n         int
 }
@@ -84,6 +86,7 @@ type srcFile struct {
 	order   []*Pkg
 	ifaces  []*Iface
 	locals  []*Decl
+	blank   []*Pkg
 }
 
 // Iface is an interface of the source package that may be mocked.
@@ -289,6 +292,13 @@ func (g *G) genDeps() {
 		used[dir] = true
 		sanit[key] = true
 		p := &Pkg{Path: g.modPath + "/" + dir, Dir: dir, Name: name}
+		if g.gopath && g.Chance(70) {
+			// vendored third-party package: imported by its short path, stored under vendor/
+			host := g.Pick([]string{"github.com/acme", "gopkg.in", "example.org/deps", "golang.org/x"})
+			p.Path = host + "/" + dir
+			p.Dir = "vendor/" + p.Path
+			g.label("import:vendored")
+		}
 		g.genDepDecls(p)
 		g.deps = append(g.deps, p)
 	}
@@ -1454,13 +1464,47 @@ func (g *G) assignFiles() {
 		if len(f.order) >= 2 {
 			g.label("src:multi-import")
 		}
+		// a dot import (at most one per file, only when no exported name of that package collides with anything)
+		if !g.P.NoDotBlank && g.Chance(8) {
+			for _, p := range f.order {
+				if p.Std || f.Imports[p] != "" {
+					continue
+				}
+				ok := true
+				for _, d := range p.Decls {
+					if g.declNames[d.Name] || tpNames[d.Name] || Predeclared[d.Name] {
+						ok = false
+					}
+					for q2 := range usedQ {
+						if q2 == d.Name {
+							ok = false
+						}
+					}
+				}
+				if ok {
+					f.Imports[p] = "."
+					delete(usedQ, p.Name)
+					g.label("src:dot-import")
+					break
+				}
+			}
+		}
+		// blank imports of packages the file does not otherwise use
+		if !g.P.NoDotBlank && g.Chance(10) {
+			all := append(append([]*Pkg{}, g.deps...), StdPkg("errors"), StdPkg("sort"), StdPkg("strings"))
+			p := all[g.Int(0, len(all)-1)]
+			if _, used := f.Imports[p]; !used {
+				f.blank = append(f.blank, p)
+				g.label("src:blank-import")
+			}
+		}
 	}
 }
 
 func (g *G) renderSrcFile(f *srcFile) string {
 	var b strings.Builder
 	fmt.Fprintf(&b, "package %s\n\n", g.src.Name)
-	if len(f.order) > 0 {
+	if len(f.order)+len(f.blank) > 0 {
 		b.WriteString("import (\n")
 		for _, p := range f.order {
 			if a := f.Imports[p]; a != "" {
@@ -1468,6 +1512,9 @@ func (g *G) renderSrcFile(f *srcFile) string {
 			} else {
 				fmt.Fprintf(&b, "\t%q\n", p.Path)
 			}
+		}
+		for _, p := range f.blank {
+			fmt.Fprintf(&b, "\t_ %q\n", p.Path)
 		}
 		b.WriteString(")\n\n")
 	}
@@ -1498,6 +1545,10 @@ func (g *G) Case() *core.Case {
 	g.modPath = "example.com/w"
 	if g.P.ModPath != "" {
 		g.modPath = g.P.ModPath
+	}
+	g.gopath = g.P.ModPath == "" && g.Chance(g.P.GopathPct)
+	if g.gopath {
+		g.label("layout:gopath-vendor")
 	}
 	cfg := core.Config{}
 	cfg.Stub = g.Chance(40)
@@ -1564,6 +1615,16 @@ func (g *G) Case() *core.Case {
 	for _, f := range g.files {
 		c.Files[dir+"/"+f.Name] = g.renderSrcFile(f)
 	}
+	if g.gopath {
+		// GOPATH layout: everything lives under src/<module path>/, there is no go.mod
+		c.Gopath = true
+		delete(c.Files, "go.mod")
+		moved := map[string]string{}
+		for k, v := range c.Files {
+			moved["src/"+g.modPath+"/"+k] = v
+		}
+		c.Files = moved
+	}
 	// goimports from a foreign cwd cannot see packages whose name differs from the last path element (F-N)
 	if cfg.Fmt == "goimports" && cfg.Invoke == "foreignabs" {
 		if g.excluded("F-N") {
@@ -1619,7 +1680,7 @@ func (g *G) Case() *core.Case {
 		}
 	}
 	c.Cfg = cfg
-	if g.P.Evolve {
+	if g.P.Evolve && !g.gopath {
 		first := strings.SplitN(cfg.Args[0], ":", 2)[0]
 		for _, it := range g.ifaces {
 			if it.Name != first || it.AliasOf != nil || it.DefOf != nil {
